@@ -13,8 +13,16 @@ This file adds what decides *where* a diagnostic is written and *whether it stay
   (`-l` console, `-L` file); `WrLstLine` drops the line while `ListOn == 0` (`LISTING OFF`).
   It goes to the error channel unless the listing is the console **and** `ListOn != 0` **and**
   it was handed to the listing.  A fatal message only goes to the error channel.
-* `WrXErrorPos`: `-w` drops numbered warnings; the numbered errors 1370 (jump distance too big)
-  and 1910 (jump target not on same page) increment `JmpErrors` while `Repass` is not yet set.
+* `WrXErrorPos(Num)`: the filters come first and in this order – (1) a message whose number is waiting in the
+  `EXPECT` list is taken off that list and dropped, (2) `-w` drops numbered warnings (`Num < 1000`) –; only a message
+  that passed both is *counted*: the numbered errors 1370 (jump distance too big) and 1910 (jump target not on same
+  page) increment `JmpErrors` while `Repass` is not yet set, then `WrErrorString` counts and routes it.  A filtered
+  message changes no counter at all (`Props/C02_Chan.lean: C02_chan_filtered_frame`).
+  (The third filter, `+G` & error 1200, needs a run without code file and is outside the statement language.)
+* `EXPECT n1,…` / `ENDEXPECT` (`CodeEXPECT`, `CodeENDEXPECT`, `AsmErrPassInit`, `AsmErrPassExit`): the list of expected
+  numbers, error 2140 for a nested `EXPECT`, 2160 for a lone `ENDEXPECT`, one error 2130 per expectation still waiting at
+  `ENDEXPECT` (each of them again passes through `WrXErrorPos`, i.e. through the rest of the list), error 2150 at the end
+  of a pass that leaves a block open; list and flag are cleared at both ends of every pass.
 * `SymbolAdder`: a label / constant re-entered with another value than in the previous pass:
   `if (!Repass && JmpErrors > 0) { if (ThrowErrors) ErrorCount -= JmpErrors; JmpErrors = 0; }`
   `Repass = True`.  `JmpErrors` is a C global that no pass and no file initialises again.
@@ -81,6 +89,13 @@ inductive Stmt where
   | equ (n v : Nat)
   /-- `k` bytes of code / data of fixed size -/
   | fill (k : Nat)
+  /-- a line that raises exactly the numbered diagnostic `n` through `WrXErrorPos` and lays down no code
+  (`n < 1000` warning, `n ≥ 10000` fatal) -/
+  | num (n : Nat)
+  /-- `EXPECT n1,n2,…` -/
+  | expect (ns : List Nat)
+  /-- `ENDEXPECT` -/
+  | endexpect
   /-- 6502 `LDA sym`: zero page (2 bytes) for a known value below 256, else absolute (3 bytes) -/
   | load (n : Nat)
   | branch (k : BrKind) (n : Nat)
@@ -135,6 +150,12 @@ structure M where
   /-- a symbol was defined twice in one pass (outside the statement language's intended use) -/
   dbl : Bool := false
   fatal : Bool := false
+  /-- `pExpectErrors`: numbers announced by `EXPECT` that have not occurred yet (head = added last) -/
+  expects : List Nat := []
+  /-- `InExpect` -/
+  inExpect : Bool := false
+  /-- messages dropped by a filter of `WrXErrorPos` in this pass (never shown, never counted) -/
+  filtered : Nat := 0
 deriving Repr, DecidableEq, Inhabited
 
 /-- `WrErrorString(…, Warning, Fatal, …)` -/
@@ -153,14 +174,33 @@ def wrErrorString (c : Cfg) (m : M) (warning fatal : Bool) : M :=
     chan := if toChan then m.chan.add warning else m.chan,
     fatal := fatal || decide (c.maxErrors ≠ 0 ∧ e ≥ c.maxErrors) }
 
-/-- `WrXErrorPos(Num, …)` for a numbered warning (`Num < 1000`) -/
-def wrNumWarning (c : Cfg) (m : M) : M :=
-  if c.suppWarns then m else wrErrorString c m true false
-
-/-- `WrXErrorPos(ErrNum_JmpDistTooBig | ErrNum_TargOnDiffPage, …)` -/
+/-- `WrXErrorPos(ErrNum_JmpDistTooBig | ErrNum_TargOnDiffPage, …)` behind the filters: the `JmpErrors` block, then `WrErrorString` -/
 def wrJmpError (c : Cfg) (m : M) : M :=
   let m1 := if m.repass then m else { m with jmpErrors := m.jmpErrors + 1 }
   wrErrorString c { m1 with jmpMsgs := m1.jmpMsgs + 1 } false false
+
+/-- `FindAndTakeExpectError`: the list without the first entry equal to `n`; `none` = not expected -/
+def takeExpect : List Nat → Nat → Option (List Nat)
+  | [], _ => none
+  | x :: r, n => if x = n then some r else (takeExpect r n).map (x :: ·)
+
+def isJmpNum (n : Nat) : Bool := n == 1370 || n == 1910
+
+/-- the message `Num` is dropped by one of the filters in front of the counting -/
+def isFiltered (c : Cfg) (m : M) (num : Nat) : Bool :=
+  (takeExpect m.expects num).isSome || (c.suppWarns && decide (num < 1000))
+
+/-- `WrXErrorPos(Num, …)`: EXPECT filter → `SuppWarns` filter → `JmpErrors` → `WrErrorString` -/
+def wrXErrorPos (c : Cfg) (m : M) (num : Nat) : M :=
+  match takeExpect m.expects num with
+  | some r => { m with expects := r, filtered := m.filtered + 1 }
+  | none =>
+    if c.suppWarns && decide (num < 1000) then { m with filtered := m.filtered + 1 }
+    else if isJmpNum num then wrJmpError c m
+    else wrErrorString c m (decide (num < 1000)) (decide (num ≥ 10000))
+
+/-- a numbered warning (290 "no memory reserved" is the one the generator renders) -/
+def wrNumWarning (c : Cfg) (m : M) : M := wrXErrorPos c m 290
 
 def wrDiag (c : Cfg) (m : M) : Diag → M
   | .warning => wrNumWarning c m
@@ -168,9 +208,25 @@ def wrDiag (c : Cfg) (m : M) : Diag → M
   | .error => wrErrorString c m false false
   | .fatal => wrErrorString c m false true
 
+/-- `CodeENDEXPECT`: `while (pExpectErrors) { take the head; WrXError(ErrNum_ExpectedError, …) }`; the fuel is the
+length of the list (every round removes at least the head); a fatal stop (`-maxerrors`) ends the process -/
+def drainExpects (c : Cfg) : Nat → M → M
+  | 0, m => m
+  | f + 1, m =>
+    if m.fatal then m else
+    match m.expects with
+    | [] => m
+    | _ :: r => drainExpects c f (wrXErrorPos c { m with expects := r } 2130)
+
+/-- `AsmErrPassExit`: `if (InExpect) WrError(ErrNum_MissingENDEXPECT); ClearExpectErrors(); InExpect = False` -/
+def passExit (c : Cfg) (m : M) : M :=
+  if m.fatal then m else
+  let m1 := if m.inExpect then wrXErrorPos c m 2150 else m
+  { m1 with expects := [], inExpect := false }
+
 /-- `if (MsgIfRepass && PassNo >= PassNoForMessage) WrXError(ErrNum_PhaseErr | ErrNum_RepassUnknown, …)` -/
-def repassMsg (c : Cfg) (m : M) : M :=
-  if c.msgPass ≠ 0 ∧ m.passNo ≥ c.msgPass then wrNumWarning c m else m
+def repassMsg (c : Cfg) (m : M) (num : Nat) : M :=
+  if c.msgPass ≠ 0 ∧ m.passNo ≥ c.msgPass then wrXErrorPos c m num else m
 
 /-- `SymbolAdder` for a constant `n := v` -/
 def symbolAdder (c : Cfg) (m : M) (n v : Nat) : M :=
@@ -186,7 +242,7 @@ def symbolAdder (c : Cfg) (m : M) (n v : Nat) : M :=
                    forgotten := m.forgotten + m.jmpErrors, jmpErrors := 0 }
         else { m with jmpErrors := 0 }
       else m
-    repassMsg c { m1 with repass := true, tab := m1.tab.set n v }
+    repassMsg c { m1 with repass := true, tab := m1.tab.set n v } 80
 
 /-- value and flags `LookupSymbol` delivers: `(value, firstPassUnknown, questionable)`;
 `none` = error 1010 symbol undefined -/
@@ -194,8 +250,14 @@ def lookup (c : Cfg) (m : M) (n : Nat) : Option (Nat × Bool × Bool) × M :=
   match m.tab.find n with
   | some (v, d) => (some (v, false, !d && m.repass), m)
   | none =>
-    if m.passNo ≤ c.maxSymPass then (some (m.pc, true, false), repassMsg c { m with repass := true })
+    if m.passNo ≤ c.maxSymPass then (some (m.pc, true, false), repassMsg c { m with repass := true } 170)
     else (none, m)
+
+/-- 1370 "jump distance too big" for the relative branches, 1910 "jump target not on same page" for the 8048 -/
+def jmpNum : BrKind → Nat
+  | .rel8 => 1370
+  | .page8 => 1910
+  | .rel8nq => 1370
 
 def branchOk (k : BrKind) (pc v : Nat) : Bool :=
   match k with
@@ -211,15 +273,27 @@ def step (c : Cfg) (m : M) (s : Stmt) : M :=
   | .save => { m with saved := m.listOn :: m.saved }
   | .restore =>
     match m.saved with
-    | [] => wrErrorString c m false false        -- `WrError(ErrNum_NoSaveFrame)`
+    -- `WrError(ErrNum_NoSaveFrame)`; written without the filters (1450 is an error, so `-w` does not apply, and the
+    -- statement language never announces 1450 by `EXPECT`) because `Lemmas/PosChan.lean` (C20) reasons about this step
+    -- for arbitrary states
+    | [] => wrErrorString c m false false
     | v :: r => { m with listOn := v, saved := r }
   | .label n => symbolAdder c m n m.pc
   | .equ n v => symbolAdder c m n v
   | .fill k => { m with pc := m.pc + k }
+  | .num n => wrXErrorPos c m n
+  | .expect ns =>
+    if m.inExpect then wrXErrorPos c m 2140       -- `WrStrErrorPos(ErrNum_NoNestExpect, …)`
+    else { m with expects := ns.foldl (fun l n => n :: l) m.expects, inExpect := true }
+  | .endexpect =>
+    if !m.inExpect then wrXErrorPos c m 2160      -- `WrStrErrorPos(ErrNum_MissingEXPECT, …)`
+    else
+      let m1 := drainExpects c m.expects.length m
+      if m1.fatal then m1 else { m1 with inExpect := false }
   | .load n =>
     match lookup c m n with
     | (some (v, fpu, _), m1) => { m1 with pc := m1.pc + (if v < 256 && !fpu then 2 else 3) }
-    | (none, m1) => wrErrorString c m1 false false
+    | (none, m1) => wrXErrorPos c m1 1010        -- `ErrNum_SymbolUndef`
   | .branch k n =>
     match lookup c m n with
     | (some (v, fpu, q), m1) =>
@@ -227,15 +301,17 @@ def step (c : Cfg) (m : M) (s : Stmt) : M :=
         | .rel8 => branchOk k m1.pc v || q      -- distance of a first-pass-unknown target is −2
         | .page8 => branchOk k m1.pc v || fpu || q
         | .rel8nq => branchOk k m1.pc v
-      if ok then { m1 with pc := m1.pc + 2 } else wrJmpError c m1
-    | (none, m1) => wrErrorString c m1 false false
+      if ok then { m1 with pc := m1.pc + 2 } else wrXErrorPos c m1 (jmpNum k)
+    | (none, m1) => wrXErrorPos c m1 1010
 
-/-- `AssembleFile_InitPass` + `AsmErrPassInit` -/
+/-- `AssembleFile_InitPass` + `AsmErrPassInit` (which also clears the EXPECT list and flag) -/
 def initPass (org : Nat) (m : M) : M :=
   { m with pc := org, passNo := m.passNo + 1, errCnt := 0, warnCnt := 0, repass := false, listOn := 1, saved := [],
-           tab := m.tab.undefAll, con := {}, chan := {}, lst := {}, jmpMsgs := 0, forgotten := 0 }
+           tab := m.tab.undefAll, con := {}, chan := {}, lst := {}, jmpMsgs := 0, forgotten := 0,
+           expects := [], inExpect := false, filtered := 0 }
 
-def runPass (c : Cfg) (org : Nat) (p : List Stmt) (m : M) : M := p.foldl (step c) (initPass org m)
+/-- one pass: `AssembleFile_InitPass`, the source lines, `AssembleFile_ExitPass` -/
+def runPass (c : Cfg) (org : Nat) (p : List Stmt) (m : M) : M := passExit c (p.foldl (step c) (initPass org m))
 
 /-- what one pass sent to console listing / error channel -/
 structure PassOut where
@@ -243,9 +319,10 @@ structure PassOut where
   chan : Cnt
   jmpMsgs : Nat
   forgotten : Nat
+  filtered : Nat := 0
 deriving Repr, DecidableEq, Inhabited
 
-def passOut (m : M) : PassOut := { con := m.con, chan := m.chan, jmpMsgs := m.jmpMsgs, forgotten := m.forgotten }
+def passOut (m : M) : PassOut := { con := m.con, chan := m.chan, jmpMsgs := m.jmpMsgs, forgotten := m.forgotten, filtered := m.filtered }
 
 /-- the pass loop with a fuel bound; `none` = fuel exhausted -/
 def passLoop (c : Cfg) (org : Nat) (p : List Stmt) : Nat → M → List PassOut → Option (M × List PassOut)
